@@ -438,6 +438,8 @@ def run(prop, tier, seed, rep, extra_inputs=None):
     import os
     json.dump(summary, open(os.path.join(core.BUILD, f"last_{prop}_verdicts.json"), "w"), indent=1, sort_keys=True)
     events = [e for e in events if e["ev"] == "decode"]
+    if tier == "thorough":
+        selftest(prop, rep, events)
     distinct = len({bytes(e["bytes"]) for e in events})
     accepted = sum(1 for e in events if e["out"].get("ok") == 1)
     rep.extra.update({"events": len(events), "distinct_inputs": distinct, "accepted_frames": accepted,
@@ -486,3 +488,33 @@ def run_batched(prop, tier, rep, hx, args, inputs, size=250000):
         rep.extra["exhaustive_over"] = EXHAUSTIVE_THOROUGH[prop]
     rep.samples = first
     rep.assumptions += ["TLC evaluates spec/Frame.tla on the recorded bytes of every event"]
+
+
+CORRUPT = {"C01": ("outcome", lambda e: e.update(outcome="panic") or e), "C02": ("ok", None), "C03": ("crc", None), "C04": ("aa", None),
+           "C06": ("ac", None), "C07": ("vr", None), "C08": ("cat", None), "C09": ("id", None), "C10": ("lat", None)}
+
+
+def selftest(prop, rep, events):
+    """corrupt one recorded field owned by this property in a recorded event and require TLC to flag that event"""
+    field, special = CORRUPT[prop]
+    sample = [e for e in events if e["ev"] == "decode"][:3000]
+    idx = None
+    for i, e in enumerate(sample):
+        if special is not None and e["outcome"] == "ok":
+            idx = i
+            break
+        if special is None and field in e["out"] and e["out"].get("ok") == 1:
+            idx = i
+            break
+    if idx is None:
+        raise core.ToolError(f"anti-vacuity: no event carries field {field}")
+
+    def mut(e):
+        if special is not None:
+            return special(e)
+        if field == "ok":
+            e["out"] = {"ok": 0}
+        else:
+            e["out"][field] = e["out"][field] ^ 1
+        return e
+    core.anti_vacuity(rep, "Trace_Decode", sample[:idx + 50], [(idx, mut, prop)], name=f"{prop}-selftest")
